@@ -34,7 +34,24 @@ judged by the same oracle and the source must not have changed with the edits.
 
 Magnitude class ("far"): the same integer meshes in large units / far from the origin, on both
 sides (10x gap) of the point where |x| * 10**digits leaves int64 (input class
-coords_overflow_int64_grid in the key).
+coords_overflow_int64_grid in the key) and of the point where it is no longer a finite double
+(coords_overflow_float64_scaling).
+
+Round 4 additions:
+  * data the operation must CARRY (not only keep aligned): face_attributes / vertex_attributes
+    of the meshes handed out by submesh / split / concatenate (sym attributes_dropped, else the
+    usual *_attr_misaligned); vertex normals ASSIGNED by the caller across operations that only
+    re-index vertices - merge (unless merge_norm=True), remove_unreferenced_vertices,
+    update_vertices that keeps every referenced vertex, remove_infinite_values / process
+    (validate=False) when no face goes (sym stored_vertex_normals_dropped).  Where faces are
+    removed or re-wound stored normals may be dropped as before (the library has one slot for
+    stored and computed normals and computed ones would be stale).
+  * assigned normals keep deciding what merge_norm=False may merge under process(validate=True)
+  * per-face data of texture visuals: TextureVisuals.face_materials (MultiMaterial, with and
+    without UV rows - the glTF loader builds the latter for merge_primitives=True)
+  * option repair: repair=False (the default of the monitor) -> every returned triangle is a
+    triangle of the source (sym faces_not_in_source); repair=True -> new faces may be appended
+    after the survivors, which are judged as always
 """
 
 from __future__ import annotations
@@ -49,8 +66,8 @@ RULE = (
     "one case = one re-indexing operation (with its option combination / mask) executed on one "
     "provenance-tagged mesh: closed integer meshes and soups decorated with exact / within-tolerance "
     "(1e-9) / outside-tolerance (1e-6) duplicate vertices, unreferenced vertices, repeated and "
-    "degenerate faces, NaN/inf coordinates; x visual kind (none/face/vertex/texture) x normals "
-    "(cold/computed/assigned); the meshes also placed at scale 1e6..1e15 / offset 1e12..1e15; split / submesh / "
+    "degenerate faces, NaN/inf coordinates; x visual kind (none/face/vertex/texture/texture with one material index per face) x normals "
+    "(cold/computed/assigned); the meshes also placed at scale 1e6..1e15, 1e298, 1e302 / offset 1e12..1e15; submesh / split with hole repair off and on; split / submesh / "
     "concatenate also repeated after the caller edited the earlier result in place. distinct = distinct (operation, options, mask, visual, normals, "
     "mesh bytes); non-trivial = the operation changed the face or vertex arrays (or produced "
     "new meshes) so that a mis-indexing was possible."
@@ -86,7 +103,10 @@ ASSUMPTIONS = [
     "separate input class drops_referenced_vertices (it cannot keep its corner)",
     "which faces unique_faces / nondegenerate_faces select is not part of the statement (only "
     "what happens to survivors); differences from a first-occurrence reference are evidence only",
-    "fresh Trimesh(process=False).vertex_normals is trusted as the recomputed vertex normal",
+    "fresh Trimesh(process=False).vertex_normals is trusted as the recomputed vertex normal, for vertices whose "
+    "faces are all clearly non-degenerate and do not cancel",
+    "TextureVisuals.face_materials of a MultiMaterial WITH uv rows (no loader builds it) is not followed through "
+    "submesh(append=True) / concatenate: stacking goes through material.pack, which takes single materials",
 ]
 EXHAUSTIVE = {"quick": False, "thorough": False}
 
@@ -94,9 +114,25 @@ VISUALS = ("none", "face", "vertex", "texture",
            # states of the colour visual reached by a history rather than by assignment:
            "face:default_edited",    # no colours assigned; the default face colours read and edited IN PLACE
            "vertex:default_edited",  # the same for the default vertex colours
-           "vertex:face_read")       # vertex colours assigned, the derived face colours read (cached) before the operation
+           "vertex:face_read",       # vertex colours assigned, the derived face colours read (cached) before the operation
+           # per-face data of a texture visual: one material index per face (what the glTF loader
+           # builds for merge_primitives=True), with the usual id-encoding UVs and without any UV
+           "texture:face_materials",
+           "texture:face_materials_nouv")
 NORMALS = ("cold", "computed", "assigned")
 IMG = 32  # texture is IMG x IMG pixels, one per uv group
+NMAT = 5  # materials of the MultiMaterial; face i uses material i % NMAT
+_MATERIALS = []
+
+
+def _materials():
+    """NMAT distinguishable materials (shared: nothing edits them)."""
+    if not _MATERIALS:
+        from trimesh.visual.material import PBRMaterial
+
+        for i in range(NMAT):
+            _MATERIALS.append(PBRMaterial(name="m%d" % i, baseColorFactor=[40 * i + 20, 255 - 40 * i, 17 * i, 255]))
+    return list(_MATERIALS)
 
 _DIRS = np.array(
     [[1, 0, 0], [-1, 0, 0], [0, 1, 0], [0, -1, 0], [0, 0, 1], [0, 0, -1]]
@@ -214,6 +250,12 @@ class Tagged:
                 m.visual.vertex_colors = self.vcol.copy()
             if vstate == "face_read":
                 _ = m.visual.face_colors
+        elif visual == "texture" and vstate.startswith("face_materials"):
+            from trimesh.visual.material import MultiMaterial
+
+            m.visual = TextureVisuals(uv=None if vstate.endswith("nouv") else self.uv.copy(),
+                                      material=MultiMaterial(materials=_materials()),
+                                      face_materials=(np.arange(self.nf) % NMAT).tolist())
         elif visual == "texture":
             m.visual = TextureVisuals(uv=self.uv.copy(), image=_image(image_variant))
 
@@ -252,7 +294,10 @@ def _j2f(x):
     return float(x)
 
 
-PLACEMENTS = ("scale_1e6", "scale_1e12", "scale_1e15", "offset_1e12", "offset_1e15")
+PLACEMENTS = ("scale_1e6", "scale_1e12", "scale_1e15", "offset_1e12", "offset_1e15",
+              # finite coordinates on both sides (>= 10x gap) of the point where |x| * 10**8 is no
+              # longer a finite double (1.8e300); every product the meshes need stays finite
+              "scale_1e298", "scale_1e302")
 SOUP_TAGS = ("fan", "bowtie", "moebius", "open_grid", "soup")
 FEATURES = ("dup_exact", "dup_within", "dup_outside", "unref", "repeat", "degenerate", "nonfinite_unref", "nonfinite_ref")
 
@@ -408,8 +453,14 @@ def grid_class(T, digits):
     times 10**digits does not fit the int64 the positions are rounded to.
     """
     V = T.V[np.isfinite(T.V)]
-    if len(V) and float(np.abs(V).max()) * 10.0 ** digits >= 2.0 ** 63:
-        return " input=coords_overflow_int64_grid"
+    if len(V):
+        with np.errstate(over="ignore"):
+            top = float(np.abs(V).max()) * 10.0 ** digits
+        if not np.isfinite(top):
+            # the scaling itself overflows: finite coordinates times 10**digits are +-inf
+            return " input=coords_overflow_float64_scaling"
+        if top >= 2.0 ** 63:
+            return " input=coords_overflow_int64_grid"
     return ""
 
 
@@ -465,6 +516,9 @@ class Ctx:
         # "face:default_edited" -> kind "face" reached through the state "default_edited"
         self.visual_full = visual
         self.visual, _, self.vstate = visual.partition(":")
+        # texture visuals: are there UV rows to follow / one material index per face to follow
+        self.has_uv = self.visual == "texture" and not self.vstate.endswith("nouv")
+        self.has_fm = self.visual == "texture" and self.vstate.startswith("face_materials")
         self.failed = []
 
     def case_dict(self, extra=None):
@@ -475,16 +529,34 @@ class Ctx:
         return d
 
     def fail(self, sym, what, detail=None, opt=""):
+        if sym in OPTION_FREE_SYMS:
+            # symptoms of data that the operation does not carry at all: masks, merge options,
+            # histories play no part, one key per operation
+            opt = ""
+        if sym == "merged_across_normal":
+            # which normals keep vertices apart has nothing to do with the magnitude class
+            opt = " ".join(w for w in opt.split() if not w.startswith("input=coords_overflow"))
         key = "op=%s%s sym=%s" % (self.op, (" " + opt) if opt else "", sym)
-        if sym in VISUAL_SYMS or sym.startswith("visual_kind_"):
+        if sym == "face_materials_misaligned":
+            key += " visual=texture:face_materials"  # with or without UV rows
+        elif sym in VISUAL_SYMS or sym.startswith("visual_kind_"):
             key += " visual=%s" % self.visual_full
         self.failed.append(sym)
         self.run.violation(key, what, self.case_dict(detail))
+
+    def blocking(self):
+        """symptoms that make a follow-up history pointless (the known 'not carried' ones do not)"""
+        return [s for s in self.failed if s not in OPTION_FREE_SYMS]
 
 
 VISUAL_SYMS = {
     "face_colour_misaligned", "vertex_colour_misaligned", "uv_misaligned", "visual_kind_changed",
     "visual_length", "texture_colour_changed",
+}
+OPTION_FREE_SYMS = {
+    "stored_vertex_normals_dropped",  # assigned vertex normals gone after a vertex re-indexing
+    "attributes_dropped",             # face_attributes / vertex_attributes absent from a new mesh
+    "face_materials_misaligned",      # TextureVisuals.face_materials not following the faces
 }
 
 
@@ -558,8 +630,15 @@ def check_face_normals(cx, m, opt=""):
                 {"face": k, "reported": fn[k], "true": N[k], "n_bad": int(bad.sum())}, opt)
 
 
-def check_vertex_normals(cx, m, src_vertex, opt="", rewind_ok=False):
-    """Rows are either the old normal of the same vertex (carried) or the recomputed normal."""
+def check_vertex_normals(cx, m, src_vertex, opt="", rewind_ok=False, must_carry=False, tol=1e-9):
+    """
+    Rows are either the old normal of the same vertex (carried) or the recomputed normal.
+    must_carry: the operation only re-indexes VERTICES (every face keeps its triangle) and the
+    normals were ASSIGNED by the caller (data, like a colour): they stay attached, i.e. every
+    row is the old row of that vertex.  Where faces are removed or re-wound the library cannot
+    tell stored normals from computed ones (one cache slot) and computed ones would be stale, so
+    dropping them there is accepted as before.
+    """
     import trimesh
 
     if cx.normals == "cold" or len(m.vertices) == 0 or len(m.faces) == 0:
@@ -583,12 +662,38 @@ def check_vertex_normals(cx, m, src_vertex, opt="", rewind_ok=False):
     if carried.all():
         cx.run.count("vertex_normals_carried")
         return
+    if must_carry and cx.normals == "assigned":
+        w = int(np.nonzero(~carried)[0][0])
+        cx.fail("stored_vertex_normals_dropped",
+                "vertex normals assigned by the caller are gone after an operation that only re-indexes vertices",
+                {"vertex": w, "reported": vn[w], "assigned_to_same_vertex": old[src_vertex[w]],
+                 "n_rows_not_carried": int((~carried).sum()), "n_rows": int(len(vn))}, opt)
+        return
     try:
         fresh = trimesh.Trimesh(np.array(m.vertices), np.array(m.faces), process=False).vertex_normals
     except BaseException:
         cx.run.count("vertex_normal_reference_failed")
         return
-    ok = carried | _close(vn, fresh, 1e-9).all(axis=1)
+    ok = carried | _close(vn, fresh, tol).all(axis=1)
+    # the recomputed reference is only meaningful where every face around the vertex is clearly
+    # non-degenerate NOW: a merge within tolerance turns slivers (edge 1e-9) into degenerate
+    # faces, and the library may still average the face normals it kept from before the merge
+    # (below its documented resolution, not judged)
+    Fm = np.asarray(m.faces, dtype=np.int64).reshape(-1, 3)
+    _, valid = true_normals(np.asarray(m.vertices, dtype=np.float64)[Fm])
+    # ... and where the face normals around the vertex do not cancel (two copies of a triangle
+    # with opposite winding: the direction of a sum that is zero up to rounding is undefined)
+    with np.errstate(invalid="ignore"):
+        cancels = ~(np.linalg.norm(np.asarray(fresh, dtype=np.float64), axis=1) > 0.5)
+    used = np.zeros(len(vn), dtype=bool)
+    used[Fm.reshape(-1)] = True
+    cancels &= used  # an unreferenced vertex has the zero normal, that IS defined
+    if not valid.all() or cancels.any():
+        unsure = cancels
+        unsure[Fm[~valid].reshape(-1)] = True
+        if (unsure & ~ok).any():
+            cx.run.count("vertex_normals_next_to_degenerate_face_not_judged", int((unsure & ~ok).sum()))
+        ok |= unsure
     cx.run.count("vertex_normals_recomputed")
     if not ok.all():
         w = int(np.nonzero(~ok)[0][0])
@@ -597,7 +702,8 @@ def check_vertex_normals(cx, m, src_vertex, opt="", rewind_ok=False):
 
 
 def check_inplace(cx, m, exp_src_face=None, exp_src_vertex=None, merging=None, rewind_ok=False,
-                  opt="", dropped_vertices=None, lenient_nonfinite=False, allow_face_subset=False):
+                  opt="", dropped_vertices=None, lenient_nonfinite=False, allow_face_subset=False,
+                  carry_normals=False):
     """
     Judge an in-place operation on a mesh built by Tagged.build().
       exp_src_face   exact list of surviving old face ids when the operation defines it
@@ -682,7 +788,7 @@ def check_inplace(cx, m, exp_src_face=None, exp_src_vertex=None, merging=None, r
             if (d.max(axis=2) >= merging["unit_v"] * (1 + 1e-3))[moved].any():
                 cx.fail("merged_beyond_tolerance", "vertices further apart than the merge tolerance were merged", None, opt)
                 return
-            if merging.get("unit_uv") and cx.visual == "texture":
+            if merging.get("unit_uv") and cx.has_uv:
                 du = np.abs(T.uv[a] - T.uv[b]).max(axis=2)
                 if (du >= merging["unit_uv"] * (1 + 1e-3))[moved].any():
                     k = int(np.nonzero(((du >= merging["unit_uv"]) & moved).any(axis=1))[0][0])
@@ -703,7 +809,23 @@ def check_inplace(cx, m, exp_src_face=None, exp_src_vertex=None, merging=None, r
     check_visual_inplace(cx, m, fid, vid, opt)
     # ---- normals
     check_face_normals(cx, m, opt)
-    check_vertex_normals(cx, m, vid, opt, rewind_ok=rewind_ok)
+    # stored normals must survive when only vertices were re-indexed (no face removed / re-wound)
+    # (a face whose corners the merge has put on one vertex is a face that went: it has no normal
+    # any more and the library drops what it stored, as it does when faces are removed - the
+    # other side of that coin is C01's near_duplicate_vertex+normals+process)
+    def _collapsed(F):
+        F = np.asarray(F).reshape(-1, 3)
+        return int(((F[:, 0] == F[:, 1]) | (F[:, 1] == F[:, 2]) | (F[:, 2] == F[:, 0])).sum()) if len(F) else 0
+    newly_collapsed = _collapsed(Fn) > _collapsed(T.F[fid]) if len(Fn) else False
+    if newly_collapsed:
+        cx.run.count("merge_collapsed_a_face")
+    check_vertex_normals(cx, m, vid, opt, rewind_ok=rewind_ok,
+                         must_carry=carry_normals and len(fid) == T.nf and not rewind_ok and not newly_collapsed,
+                         # a merge moves corners by up to the merge tolerance (1e-8 on edges >= 1) and
+                         # process() documents that it keeps the face normals across it: recomputed
+                         # vertex normals may differ from a fresh mesh by that much (100x margin,
+                         # still 10x below the 1e-5 the face normals are judged with)
+                         tol=1e-6 if merging else 1e-9)
 
 
 def check_visual_inplace(cx, m, fid, vid, opt=""):
@@ -744,22 +866,75 @@ def check_visual_inplace(cx, m, fid, vid, opt=""):
                 cx.fail("visual_length", "derived face colours cannot be read any more: %s" % type(e).__name__, {"error": repr(e)[:200]}, opt)
     elif cx.visual == "texture":
         uv = m.visual.uv
-        if uv is None or np.shape(uv) != (len(vid), 2):
+        if not cx.has_uv:
+            pass
+        elif uv is None or np.shape(uv) != (len(vid), 2):
             cx.fail("visual_length", "uv no longer has one row per vertex", {"shape": list(np.shape(uv))}, opt)
         elif not _same(uv, T.uv[vid]).all():
             k = int(np.nonzero(~_same(uv, T.uv[vid]).all(axis=1))[0][0])
             cx.fail("uv_misaligned", "a UV row now sits on a different vertex than it was attached to",
                     {"new_vertex": k, "uv": np.asarray(uv)[k], "uv_of_id": T.uv[vid[k]]}, opt)
+        if cx.has_fm:
+            check_face_materials(cx, m.visual, fid, opt)
+
+
+def _copies(T):
+    """face id -> ids of all faces with the same corner positions in the same corner order."""
+    table = T.__dict__.get("_copies")
+    if table is None:
+        groups = {}
+        for j in range(T.nf):
+            groups.setdefault(T.V[T.F[j]].tobytes(), []).append(j)
+        table = T.__dict__["_copies"] = {j: g for g in groups.values() for j in g}
+    return table
+
+
+def check_face_materials(cx, visual, src_face, opt="", prefix=False, inferred=False):
+    """
+    TextureVisuals.face_materials: entry k is the material index of old face src_face[k].
+    prefix: faces appended by hole filling have no entry of their own (and when they coincide
+    with source faces they cannot be told from survivors): the entries there are describe the
+    leading faces.  inferred: src_face was inferred from positions, so any copy of the same
+    triangle may be the face that is meant.
+    """
+    fm = getattr(visual, "face_materials", None)
+    src_face = np.asarray(src_face, dtype=np.int64)
+    n = None if fm is None else len(fm)
+    ok = fm is not None
+    if ok:
+        got = np.asarray(fm).reshape(-1)
+        m = len(src_face)
+        if prefix:
+            m = min(m, len(got))
+            ok = m > 0 or len(src_face) == 0
+        else:
+            ok = len(got) == m
+    if ok:
+        got, src = got[:m], src_face[:m]
+        if inferred:
+            copies = _copies(cx.T)
+            ok = all(int(g) in {j % NMAT for j in copies[int(j0)]} for g, j0 in zip(got, src))
+        else:
+            ok = bool(np.array_equal(got, src % NMAT))
+    if not ok:
+        cx.fail("face_materials_misaligned",
+                "the material index per face (TextureVisuals.face_materials) no longer describes the faces there are",
+                {"faces": int(len(src_face)), "len_face_materials": n,
+                 "face_materials": None if fm is None else np.asarray(fm)[:20], "expected": (src_face % NMAT)[:20]}, opt)
 
 
 def _uv_lookup(T):
     return {T.uv[i].tobytes(): i for i in range(T.nv)}
 
 
-def check_piece(cx, piece, src_face, opt="", prefix_only=False):
+def check_piece(cx, piece, src_face, opt="", prefix_only=False, inferred=False, rows_prefix=False):
     """
     Judge one mesh returned by submesh / split / concatenate against the source arrays held by
-    cx.T.  src_face: old face id of each face of the piece (request order).
+    cx.T.  src_face: old face id of each face of the piece (request order).  inferred: the
+    ids were inferred from positions / colours (split), so a face stands for any copy of its
+    triangle when per-face data that is not the provenance is compared.  rows_prefix: holes may
+    have been filled with faces that coincide with source faces (so all of them were
+    "identified"): per-face rows may end before the faces do.
     """
     T = cx.T
     Vn = np.asarray(piece.vertices, dtype=np.float64)
@@ -810,12 +985,68 @@ def check_piece(cx, piece, src_face, opt="", prefix_only=False):
             cx.fail("visual_kind_texture_to_%s" % kind, "texture visuals were not carried (kind %s)" % kind, None, opt)
         else:
             uv = piece.visual.uv
-            if uv is None or np.shape(uv) != (len(Vn), 2):
+            if not cx.has_uv:
+                pass
+            elif uv is None or np.shape(uv) != (len(Vn), 2):
                 cx.fail("visual_length", "uv does not have one row per vertex", {"shape": list(np.shape(uv))}, opt)
             elif len(Fn) and not _same(np.asarray(uv)[Fn], T.uv[a]).all():
                 cx.fail("uv_misaligned", "a UV row moved to a different vertex", None, opt)
+            if cx.has_fm:
+                check_face_materials(cx, piece.visual, src_face, opt, prefix=prefix_only or rows_prefix, inferred=inferred)
+    check_piece_attributes(cx, piece, Vn, Fn, src_face, opt, prefix_only or rows_prefix, inferred)
     if not prefix_only:
         check_face_normals(cx, piece, opt)
+
+
+def check_piece_attributes(cx, piece, Vn, Fn, src_face, opt="", prefix_only=False, inferred=False):
+    """
+    face_attributes / vertex_attributes of a NEW mesh (submesh, split): the rows of the source
+    that belong to the faces / vertices of the piece.  Fn: the leading faces of the piece that
+    are faces src_face of the source.  Faces appended by hole filling (prefix_only) have no rows
+    of their own.  inferred: see check_piece - the id a face carries must be the id of a copy
+    of its triangle, each id once, and the vertex rows must then be those of THAT face.
+    """
+    T = cx.T
+    fa = getattr(piece, "face_attributes", None) or {}
+    va = getattr(piece, "vertex_attributes", None) or {}
+    missing = [n for n, d, k in (("face_attributes", fa, "id"), ("face_attributes", fa, "tag2"),
+                                 ("vertex_attributes", va, "id"), ("vertex_attributes", va, "pos")) if k not in d]
+    if missing:
+        cx.fail("attributes_dropped", "the returned mesh has lost the %s of the source" % " and ".join(sorted(set(missing))),
+                {"face_attributes": sorted(fa.keys()), "vertex_attributes": sorted(va.keys())}, opt)
+        return
+    fid = np.asarray(fa["id"]).reshape(-1)
+    tag2 = np.asarray(fa["tag2"])
+    m = len(src_face)
+    if prefix_only:
+        m = min(m, len(fid))
+        fid = fid[:m]
+        tag2 = tag2[:m]
+    src, Fm = src_face[:m], Fn[:m]
+    ok = len(fid) == m and (m > 0 or len(src_face) == 0)
+    if ok and inferred:
+        copies = _copies(T)
+        ok = len(set(fid.tolist())) == m and all(int(i) in copies[int(j0)] for i, j0 in zip(fid, src))
+    elif ok:
+        ok = bool(np.array_equal(fid, src))
+    if not ok:
+        cx.fail("face_attr_misaligned", "face_attributes['id'] of a returned mesh are not the ids of its faces",
+                {"ids": fid[:20], "expected": src_face[:20]}, opt)
+        return
+    if tag2.shape != (m, 2) or not np.array_equal(tag2, np.column_stack([fid, -fid])):
+        cx.fail("face_attr2_misaligned", "2-D face attribute of a returned mesh is out of step with its faces", None, opt)
+    a = T.F[fid.astype(np.int64)]  # old vertex under each corner of the face that is meant
+    vid = np.asarray(va["id"])
+    pos = np.asarray(va["pos"])
+    if vid.shape != (len(Vn),) or pos.shape != Vn.shape:
+        cx.fail("vertex_attr_len", "vertex_attributes of a returned mesh do not have one row per vertex",
+                {"vertices": int(len(Vn)), "id": list(vid.shape), "pos": list(pos.shape)}, opt)
+    elif m and not np.array_equal(vid[Fm], a):
+        k = int(np.nonzero((vid[Fm] != a).any(axis=1))[0][0])
+        cx.fail("vertex_attr_misaligned", "vertex_attributes['id'] of a returned mesh sit on other vertices than in the source",
+                {"new_face": k, "ids": vid[Fm[k]], "expected": a[k]}, opt)
+    elif m and not _same(pos[Fm], T.V[a]).all():
+        cx.fail("vertex_attr2_misaligned", "2-D vertex attribute of a returned mesh is out of step with its vertices", None, opt)
 
 
 # ----------------------------------------------------------------------------
@@ -891,7 +1122,10 @@ def op_merge_vertices(cx):
         opt = over.strip()
         cx.run.count("merge_on_coords_beyond_int64_grid")
     cx.run.state("merge_outcome", (len(m.vertices) < cx.T.nv, cx.visual, cx.normals, opt))
-    check_inplace(cx, m, exp_src_face=np.arange(cx.T.nf), merging=merging, opt=opt, lenient_nonfinite=True)
+    # merge_norm=True: the caller declared the normals irrelevant for what is one vertex; none of
+    # the members' normals is "the" normal of the merged vertex, so nothing has to be carried
+    check_inplace(cx, m, exp_src_face=np.arange(cx.T.nf), merging=merging, opt=opt, lenient_nonfinite=True,
+                  carry_normals=not p.get("merge_norm"))
     _finish(cx, len(m.vertices) != cx.T.nv)
 
 
@@ -911,7 +1145,8 @@ def op_remove_unreferenced(cx):
     ok, _ = _guard(cx, m.remove_unreferenced_vertices)
     if ok:
         T = cx.T
-        check_inplace(cx, m, exp_src_face=np.arange(T.nf), exp_src_vertex=np.nonzero(T.referenced)[0])
+        check_inplace(cx, m, exp_src_face=np.arange(T.nf), exp_src_vertex=np.nonzero(T.referenced)[0],
+                      carry_normals=True)
     _finish(cx, not cx.T.referenced.all())
 
 
@@ -924,7 +1159,7 @@ def op_remove_infinite(cx):
             cx.fail("nonfinite_left", "non-finite vertices remain after remove_infinite_values", None)
         # a face that referenced a removed vertex cannot survive unchanged: it may be dropped
         check_inplace(cx, m, exp_src_face=np.arange(T.nf), allow_face_subset=True,
-                      exp_src_vertex=np.nonzero(T.finite_v)[0])
+                      exp_src_vertex=np.nonzero(T.finite_v)[0], carry_normals=True)
     _finish(cx, not cx.T.finite_v.all())
 
 
@@ -955,7 +1190,7 @@ def op_update_vertices(cx):
         if len(mask) == 0 and len(m.vertices) == T.nv:
             exp_v = np.arange(T.nv)  # documented early exit: an empty mask is a no-op
         if not drops_ref:
-            check_inplace(cx, m, exp_src_face=np.arange(T.nf), exp_src_vertex=exp_v, opt=opt)
+            check_inplace(cx, m, exp_src_face=np.arange(T.nf), exp_src_vertex=exp_v, opt=opt, carry_normals=True)
         else:
             # faces that lost a vertex cannot keep their corners; they must not stay in the
             # mesh pointing somewhere else.  Everything else is judged as usual.
@@ -1034,11 +1269,15 @@ def op_process(cx):
             "unit_uv": None if p.get("merge_tex") else 1e-4,
             "unit_n": None if p.get("merge_norm") else 1e-2,
         }
-        if validate:
-            # fix_normals re-winds faces: stored vertex normals of a re-wound region are not judged
+        if validate and cx.normals != "assigned":
+            # fix_normals re-winds faces and duplicate / degenerate faces go: vertex normals that
+            # were merely COMPUTED (cached) before describe other faces and are not judged.
+            # Normals ASSIGNED by the caller keep deciding which vertices may be merged
+            # (merge_norm=False): removing or re-winding some face does not change them
             merging["unit_n"] = None
         check_inplace(cx, m, exp_src_face=None if validate else np.arange(T.nf), allow_face_subset=True,
-                      merging=merging, rewind_ok=validate, opt=opt)
+                      merging=merging, rewind_ok=validate, opt=opt,
+                      carry_normals=not validate and not p.get("merge_norm"))
     _finish(cx, True)
 
 
@@ -1061,11 +1300,15 @@ def _trial(cx, fn):
     finally:
         del cx.fail
         cx.failed = real_failed
-    return not seen
+    return not [x for x in seen if x not in OPTION_FREE_SYMS]
 
 
-def judge_submesh(cx, res, want, append, only_wt, opt):
-    """One result of submesh against the requested (non-empty) face lists."""
+def judge_submesh(cx, res, want, append, only_wt, opt, repair=False):
+    """
+    One result of submesh against the requested (non-empty) face lists.  repair=False: every
+    face of every returned mesh is a requested face; repair=True: holes may have been filled
+    with new faces appended after the requested ones.
+    """
     T = cx.T
     if append:
         if not hasattr(res, "faces"):
@@ -1095,6 +1338,9 @@ def judge_submesh(cx, res, want, append, only_wt, opt):
             check_piece(cx, piece, want[j], opt, prefix_only=True)
             if nfp != len(want[j]):
                 cx.run.count("submesh_holes_filled")
+                if not repair:
+                    cx.fail("faces_not_in_source", "repair=False, yet a returned mesh has faces that are not faces of the source (its holes were filled)",
+                            {"requested_faces": int(len(want[j])), "faces_of_the_piece": int(nfp)}, opt)
             j += 1
     else:
         if len(res) != len(want):
@@ -1102,7 +1348,11 @@ def judge_submesh(cx, res, want, append, only_wt, opt):
                     {"got": len(res), "want": len(want)}, opt)
         else:
             for piece, w in zip(res, want):
-                check_piece(cx, piece, w, opt)
+                if repair and len(piece.faces) > len(w):
+                    cx.run.count("submesh_holes_filled")
+                    check_piece(cx, piece, w, opt, prefix_only=True)
+                else:
+                    check_piece(cx, piece, w, opt)
 
 
 def op_submesh(cx):
@@ -1113,10 +1363,11 @@ def op_submesh(cx):
     seq = _index_lists(p)
     append = bool(p.get("append"))
     only_wt = bool(p.get("only_watertight"))
+    repair = bool(p.get("repair")) and not append
     hist = p.get("history")
-    opt = "append=%s" % append + (" only_watertight=True" if only_wt and not append else "")
+    opt = "append=%s" % append + (" only_watertight=True" if only_wt and not append else "") + (" repair=True" if repair else "")
     before = (T.V.tobytes(), T.F.tobytes())
-    ok, res = _guard(cx, lambda: m.submesh(seq, append=append, only_watertight=only_wt, repair=False), opt)
+    ok, res = _guard(cx, lambda: m.submesh(seq, append=append, only_watertight=only_wt, repair=repair), opt)
     if not ok:
         return _finish(cx, True)
     if (np.asarray(m.vertices).tobytes(), np.asarray(m.faces).tobytes()) != before:
@@ -1128,26 +1379,26 @@ def op_submesh(cx):
         return _finish(cx, False)
     if not append:
         res = list(res) if res is not None else []
-    judge_submesh(cx, res, want, append, only_wt, opt)
-    if hist and not cx.failed:
+    judge_submesh(cx, res, want, append, only_wt, opt, repair)
+    if hist and not cx.blocking():
         opt2 = opt + " history=" + hist
         edit_results(cx, [res] if append else res, p.get("edits") or ["translate"])
         if source_untouched(cx, m, opt2):
-            ok, again = _guard(cx, lambda: m.submesh(seq, repair=False, only_watertight=only_wt, append=append), opt2)
+            ok, again = _guard(cx, lambda: m.submesh(seq, repair=repair, only_watertight=only_wt, append=append), opt2)
             if ok:
                 if not append:
                     again = list(again) if again is not None else []
                     if only_wt and len(again) != len(res):
                         cx.fail("piece_count", "the same submesh of the unmodified mesh returns a different number of meshes the second time",
                                 {"first": len(res), "second": len(again)}, opt2)
-                judge_submesh(cx, again, want, append, only_wt, opt2)
+                judge_submesh(cx, again, want, append, only_wt, opt2, repair)
                 cx.run.count("submesh_histories_judged")
     _finish(cx, True)
 
 
-def _piece_matches(T, piece, w):
+def _piece_matches(T, piece, w, whole=False):
     Fn = np.asarray(piece.faces).reshape(-1, 3)
-    if len(Fn) < len(w) or len(w) == 0:
+    if len(Fn) < len(w) or len(w) == 0 or (whole and len(Fn) != len(w)):
         return False
     try:
         P = np.asarray(piece.vertices)[Fn[: len(w)]]
@@ -1274,18 +1525,37 @@ def source_untouched(cx, m, opt):
     return True
 
 
-def judge_split(cx, parts, only_wt, opt):
-    """One list returned by split, against the source arrays held by cx.T."""
+def judge_split(cx, parts, only_wt, opt, repair=False):
+    """
+    One list returned by split, against the source arrays held by cx.T.  Faces that are not
+    faces of the source (filled holes, appended) are expected with repair=True only.
+    """
     import trimesh
 
     T = cx.T
     cx._used_faces = set()
     seen = []
+    partial = only_wt or repair
+    unidentified = False
     for piece in parts:
-        src, how = infer_src_faces(cx, piece, partial=only_wt)
+        if only_wt and not repair:
+            # repair is off: every face of a part is a face of the source
+            backup = set(cx._used_faces)
+            src, how = infer_src_faces(cx, piece, partial=False)
+            if src is not None and how == "colour" and not _piece_matches(T, piece, src, whole=True):
+                # a filled face comes with some colour: its id says nothing about where it is
+                src = None
+            if src is None:
+                cx.fail("faces_not_in_source", "repair=False, yet a part has faces that are not faces of the source (its holes were filled)",
+                        {"faces_of_the_part": int(len(piece.faces)), "how": how}, opt)
+                cx._used_faces = backup
+                src, how = infer_src_faces(cx, piece, partial=True)  # judge the survivors as before
+        else:
+            src, how = infer_src_faces(cx, piece, partial=partial)
         if src is None:
-            if only_wt:
+            if partial:
                 cx.run.count("split_piece_unidentified")
+                unidentified = True
                 continue
             cx.fail("face_not_original", "a face of a split component is not a face of the source (%s)" % how, None, opt)
             return
@@ -1310,8 +1580,8 @@ def judge_split(cx, parts, only_wt, opt):
             if chosen != order_src.tolist():
                 cx.run.count("split_order_duplicate_faces_reassigned")
             order_src = np.asarray(chosen, dtype=np.int64)
-        if only_wt and len(order_src) > 1:
-            # only_watertight=True runs fill_holes (even with repair=False, util.submesh), which
+        if partial and len(order_src) > 1:
+            # hole filling (repair=True; on the unrepaired library also only_watertight=True)
             # APPENDS new faces; their inferred ids are not survivors' ids, so the order claim
             # is judged on the strictly increasing prefix followed by an appended tail only
             d = np.nonzero(np.diff(order_src) <= 0)[0]
@@ -1326,19 +1596,19 @@ def judge_split(cx, parts, only_wt, opt):
             cx.fail("face_order",
                     "faces inside a split component are not in their original relative order",
                     {"ids": src[:40]}, opt)
-        if only_wt and len(src) != len(piece.faces):
+        if partial and len(src) != len(piece.faces):
             # holes were filled: provenance of the appended faces is undefined
             cx.run.count("split_piece_with_filled_holes")
-            check_piece(cx, piece, src, opt, prefix_only=True)
+            check_piece(cx, piece, src, opt, prefix_only=True, inferred=True)
         else:
-            check_piece(cx, piece, src, opt)
+            check_piece(cx, piece, src, opt, inferred=True, rows_prefix=partial)
         seen.append(src)
-    if not only_wt:
+    if not only_wt and not unidentified:
         allids = np.sort(np.concatenate(seen)) if seen else np.zeros(0, dtype=np.int64)
         if not np.array_equal(allids, np.arange(T.nf)):
             cx.fail("partition", "split(only_watertight=False) does not return every face exactly once",
                     {"n_faces": T.nf, "returned": int(len(allids))}, opt)
-        elif parts:
+        elif parts and not repair:
             ok, whole = _guard(cx, lambda: trimesh.util.concatenate(parts), opt + " then=concatenate")
             if ok:
                 if canon_triangles(np.asarray(whole.vertices)[np.asarray(whole.faces)]) != canon_triangles(T.V[T.F]):
@@ -1360,7 +1630,8 @@ def op_split(cx):
     T = cx.T
     hist = p.get("history")
     only_wt = bool(p.get("only_watertight"))
-    opt = "only_watertight=%s" % only_wt
+    repair = bool(p.get("repair"))
+    opt = "only_watertight=%s" % only_wt + (" repair=True" if repair else "")
     late_visual = hist == "again_after_assigning_visual"
     if late_visual:
         full = cx.visual_full
@@ -1369,14 +1640,14 @@ def op_split(cx):
         cx.visual_full = full
     else:
         m = _prepare(cx)
-    ok, parts = _guard(cx, lambda: m.split(only_watertight=only_wt, repair=False), opt)
+    ok, parts = _guard(cx, lambda: m.split(only_watertight=only_wt, repair=repair), opt)
     if not ok:
         return _finish(cx, True)
     parts = list(parts) if parts is not None else []
     cx.run.state("split_parts", min(len(parts), 6))
     if not late_visual:
-        judge_split(cx, parts, only_wt, opt)
-    if hist and parts and not cx.failed:
+        judge_split(cx, parts, only_wt, opt, repair)
+    if hist and parts and not cx.blocking():
         opt2 = opt + " history=" + hist
         if late_visual:
             T.apply_visual(m, cx.visual_full)
@@ -1389,14 +1660,20 @@ def op_split(cx):
             ok, src = _guard(cx, lambda: m.copy(include_cache=True), opt2)
             if not ok:
                 return _finish(cx, True)
-        ok, again = _guard(cx, lambda: src.split(repair=False, only_watertight=only_wt), opt2)
+            if "id" not in src.face_attributes:
+                # Trimesh.copy is not a re-indexing operation: what it leaves behind is not
+                # judged here, the second split is
+                cx.run.count("copy_without_attributes")
+                src.face_attributes.update({k: np.array(v) for k, v in m.face_attributes.items()})
+                src.vertex_attributes.update({k: np.array(v) for k, v in m.vertex_attributes.items()})
+        ok, again = _guard(cx, lambda: src.split(repair=repair, only_watertight=only_wt), opt2)
         if ok:
             again = list(again) if again is not None else []
             if len(again) != len(parts):
                 cx.fail("piece_count", "the same split of the unmodified mesh returns a different number of parts the second time",
                         {"first": len(parts), "second": len(again)}, opt2)
             else:
-                judge_split(cx, again, only_wt, opt2)
+                judge_split(cx, again, only_wt, opt2, repair)
             cx.run.count("split_histories_judged")
     _finish(cx, len(parts) > 0)
 
@@ -1458,6 +1735,24 @@ def op_concatenate(cx):
         cx.fail("faces_not_offset_stack", "concatenated faces are not the inputs' faces shifted by the vertex offsets",
                 {"faces": np.asarray(res.faces)[:8], "expected": F[:8]}, opt)
         return _finish(cx, True)
+    # attributes: the inputs' rows stacked in input order
+    fa = getattr(res, "face_attributes", None) or {}
+    va = getattr(res, "vertex_attributes", None) or {}
+    missing = [n for n, d, k in (("face_attributes", fa, "id"), ("face_attributes", fa, "tag2"),
+                                 ("vertex_attributes", va, "id"), ("vertex_attributes", va, "pos")) if k not in d]
+    if missing:
+        cx.fail("attributes_dropped", "the concatenated mesh has lost the %s every input has" % " and ".join(sorted(set(missing))),
+                {"face_attributes": sorted(fa.keys()), "vertex_attributes": sorted(va.keys()), "inputs": len(tagged)}, opt)
+    else:
+        want_f = np.concatenate([np.arange(t.nf) for t in tagged])
+        want_v = np.concatenate([np.arange(t.nv) for t in tagged])
+        if not np.array_equal(np.asarray(fa["id"]), want_f) or not np.array_equal(
+                np.asarray(fa["tag2"]).reshape(-1, 2), np.column_stack([want_f, -want_f])):
+            cx.fail("face_attr_misaligned", "face_attributes of the inputs are not stacked in face order",
+                    {"ids": np.asarray(fa["id"])[:20], "expected": want_f[:20]}, opt)
+        if not np.array_equal(np.asarray(va["id"]), want_v) or np.shape(va["pos"]) != V.shape or not _same(va["pos"], V).all():
+            cx.fail("vertex_attr_misaligned", "vertex_attributes of the inputs are not stacked in vertex order",
+                    {"ids": np.asarray(va["id"])[:20], "expected": want_v[:20]}, opt)
     # colours: per-piece ids
     kind = res.visual.kind
     if cx.visual == "face":
@@ -1652,8 +1947,11 @@ def ops_for(run, rng, T, full):
         for append in (False, True):
             yield "submesh", {"sequence": seq, "append": append, "only_watertight": False}
         yield "submesh", {"sequence": seq, "append": False, "only_watertight": True}
+        # hole repair switched ON: new faces may be appended, the requested ones stay what they were
+        yield "submesh", {"sequence": seq, "append": False, "only_watertight": bool(rng.integers(2)), "repair": True}
     yield "split", {"only_watertight": False}
     yield "split", {"only_watertight": True}
+    yield "split", {"only_watertight": bool(rng.integers(2)), "repair": True}
     # an operation that hands out new meshes as one step of a caller's history: the result is
     # edited in place (or the source gets its visual) and the same call is made again
     if nf:
@@ -1710,10 +2008,16 @@ def workload(run):
         others = [t.to_case() for t in prev[-2:]]
         for visual, normals in pick:
             for op, params in oplist:
-                if op == "subdivide" and normals != "cold":
+                if op == "subdivide" and (normals != "cold" or "face_materials" in visual):
+                    continue
+                if op == "submesh" and params.get("append") and visual == "texture:face_materials":
+                    # MultiMaterial WITH uv rows is built by no loader and stacking it goes
+                    # through material.pack (single materials): not judged
                     continue
                 execute(run, T, visual, normals, op, params)
-            if others:
+            # (stacking MultiMaterials is not implemented in the library - material.pack takes
+            # single materials - so the face_materials visuals are not concatenated)
+            if others and "face_materials" not in visual:
                 for route in ("concatenate", "add"):
                     execute(run, T, visual, normals, "concatenate",
                             {"others": others, "route": route, "mixed_images": bool(i % 2)})
